@@ -13,8 +13,8 @@ RULE = ("cases = all pattern families incl. not-strong-Hall, zero diagonals, den
         "or a diagnosed overflow occurred, or dynamic storage with >=2 threads allocating; distinct = case text")
 ASSUMPTIONS = ["relax <= maxsuper", "ASan red zones delimit every heap block; overruns inside the single lusup array are caught by the slot monitor and the extent-disjointness check"]
 BUDGET = {
-    "quick": {"examples": 24000, "workers": 14, "time_budget": 80, "variants": ["asan"]},
-    "thorough": {"examples": 300000, "workers": 14, "time_budget": 1300, "variants": ["asan"]},
+    "quick": {"examples": 24000, "workers": 14, "time_budget": 80, "variants": ["asan", "long"], "variant_share": {"asan": 0.86, "long": 0.14}},
+    "thorough": {"examples": 300000, "workers": 14, "time_budget": 1300, "variants": ["asan", "omp", "long"], "variant_share": {"asan": 0.65, "omp": 0.15, "long": 0.2}},
 }
 
 
